@@ -110,10 +110,14 @@ impl Iterator for QueryIterator {
                     author_filter,
                     selector,
                 } => loop {
-                    // get the next entry from the query range, filtered by the author filter
+                    // get the next entry from the query range, filtered by the author filter.
+                    // for latest-per-key queries the author filter applies *after* the grouping,
+                    // so that the latest entry is selected among all authors.
+                    let filter_after_grouping = selector.is_some();
                     let next = range
                         .next_filtered(&self.query.sort_direction, |(_ns, _key, author)| {
-                            author_filter.matches(&(AuthorId::from(author)))
+                            filter_after_grouping
+                                || author_filter.matches(&(AuthorId::from(author)))
                         });
 
                     // early-break if next contains Err
@@ -132,6 +136,13 @@ impl Iterator for QueryIterator {
                             SelectorRes::Some(res) => Some(res),
                         },
                     };
+
+                    // skip the latest entry for a key if it is not by the requested author
+                    if filter_after_grouping
+                        && matches!(&next, Some(e) if !author_filter.matches(&e.author()))
+                    {
+                        continue;
+                    }
 
                     // skip the entry if empty and no empty entries requested
                     if !self.query.include_empty && matches!(&next, Some(e) if e.is_empty()) {
